@@ -195,6 +195,17 @@ func FuzzPeerID(f *testing.F) {
 		f.Add(idForm(k.id, "json"), uint8(2))
 		f.Add(idForm(k.id, "addrinfo-json"), uint8(3))
 	}
+	// bit 7 of the form byte: the local configuration option AdvancedEnableInlining is off;
+	// IDs of both kinds (embedding the key / hashed) in every form under that setting
+	for _, k := range w.keys {
+		for _, x := range []peer.ID{refIDSetting(k.pubM, true), refIDSetting(k.pubM, false)} {
+			f.Add([]byte(x), uint8(0x80))
+			f.Add(idForm(x, "b58"), uint8(0x81))
+			f.Add(idForm(x, "cid-b32"), uint8(0x81))
+			f.Add(idForm(x, "json"), uint8(0x82))
+			f.Add(idForm(x, "addrinfo-json"), uint8(0x83))
+		}
+	}
 	for _, h := range hostile {
 		f.Add(h, uint8(0))
 		f.Add(h, uint8(1))
@@ -205,8 +216,8 @@ func FuzzPeerID(f *testing.F) {
 		f.Add([]byte(s), uint8(3))
 	}
 	f.Fuzz(func(t *testing.T, data []byte, form uint8) {
-		peer.AdvancedEnableInlining = true
-		fm := forms[int(form)%len(forms)]
+		defer setInlining(form&0x80 == 0)()
+		fm := forms[int(form&0x7f)%len(forms)]
 		for _, k := range []*kp{w.keys[0], w.keys[3]} {
 			if _, _, fail := judgeIDCandidate(k, fm, data); fail != "" {
 				t.Fatalf("form %s input %q / %x: %s", fm, data, data, fail)
